@@ -470,7 +470,7 @@ FN('hex_len', props=['C03', 'C18', 'C19'], ret='r',
 FN('max_chunk_data', props=['C03', 'C18', 'C19'], ret='r',
    ensures=[
        ('aux.max_chunk_data.closed_form', 'r == spec_max_fit(available as nat)'),
-       ('C19.largest_chunk_that_fits', '(r > 0 ==> chunk_len(r as nat) <= available) && (forall|t: nat| t > r ==> chunk_len(t) > available) && (available >= 6 ==> r >= 1)'),
+       ('C18/C19.largest_chunk_that_fits', '(r > 0 ==> chunk_len(r as nat) <= available) && (forall|t: nat| t > r ==> chunk_len(t) > available) && (available >= 6 ==> r >= 1)'),
    ],
    head='''proof {
         lemma_max_fit(available as nat);
@@ -784,7 +784,7 @@ FN('read_chunked', props=['C07', 'C12', 'C01'], ret='r',
    )
 
 FN('is_ended', props=['C07', 'C08', 'C09'], ret='r',
-   ensures=[('C08.complete_iff', '''r == match *self { BodyReader::NoBody => true, BodyReader::LengthDelimited(v) => v == 0,
+   ensures=[('C07/C08/C09.complete_iff', '''r == match *self { BodyReader::NoBody => true, BodyReader::LengthDelimited(v) => v == 0,
             BodyReader::Chunked(d) => d is Ended, BodyReader::CloseDelimited => false }''')])
 FN('is_on_chunk_boundary', props=['C07'], ret='r',
    # (only the chunked case is pinned: C07 does not say what the query answers for bodies that have no chunks)
